@@ -22,6 +22,7 @@ type GenOpts struct {
 	Delay        bool
 	Handlers     bool
 	Outputs      bool // some steps capture their stdout with output:
+	SubWorkflow  bool // some steps are marked as sub-workflow calls (scheduler level only)
 	TeardownFail bool // some steps' output cannot be flushed at teardown (stdout: /dev/full); the done receiver is slow in some cases
 	SharedPrec   bool // some DAGs carry the shared-precondition gadget (same condition text, value changed by the run)
 	RetryMsProb  int  // % of retrying steps that get a 5..30 ms interval
@@ -95,6 +96,14 @@ func GenDAG(r *rand.Rand, id string, o GenOpts) *vexec.CaseSpec {
 			if r2.Intn(100) < 18 {
 				s.OutputVar = "VERIF_OUT_" + strings.ToUpper(strings.ReplaceAll(id, "-", "_")) + "_" + strings.ToUpper(s.Name)
 				s.OutBytes = 1 + r2.Intn(40)
+			}
+		}
+	}
+	if o.SubWorkflow {
+		r5 := rand.New(rand.NewSource(spec.DecSeed ^ 0x50b))
+		for _, s := range spec.Steps {
+			if r5.Intn(100) < 15 {
+				s.SubWorkflow = true
 			}
 		}
 	}
